@@ -33,7 +33,7 @@ func newEndpoint(name string, server bool, paired, allowWaiting bool) *endpoint 
 	return e
 }
 
-// ops: a3 = arm 3s, a7 = arm 7s, st = stop, g = 1s gap
+// ops: a3 = arm 3s, a7 = arm 7s, st = stop, g = 1s gap, G = 4s gap
 func seqBody(ops []string) func() {
 	return func() {
 		simrt.ClearTraceHooks()
@@ -51,6 +51,8 @@ func seqBody(ops []string) func() {
 				e.C.VerifStopTimer()
 			case "g":
 				simrt.RunFor(time.Second)
+			case "G":
+				simrt.RunFor(4 * time.Second) // longer than the short timer, shorter than the long one
 			}
 		}
 		simrt.RunFor(40 * time.Second)
@@ -189,6 +191,8 @@ func scenarios(r *hx.Run) []hx.Scenario {
 		if len(s) > 1 {
 			last := append(append([]string(nil), s[:len(s)-1]...), "g", s[len(s)-1])
 			pats = append(pats, last)
+			// a replaced (stale) short timer runs out while its successor is armed, then the last operation
+			pats = append(pats, append(append([]string(nil), s[:len(s)-1]...), "G", s[len(s)-1]))
 		}
 		for _, p := range pats {
 			out = append(out, hx.Scenario{Name: "seq:" + strings.Join(p, ","), Body: seqBody(p), Bounds: simrt.B(pb, 0, 0)})
